@@ -66,3 +66,20 @@ Theorem C01_source_return_value_is_the_model :
   forall k a, ret_word k a = if a =? k_errno k then N.lor a (k_eperm k) else a.
 Proof. split; reflexivity. Qed.
 Print Assumptions C01_source_return_value_is_the_model.
+
+(** Policy.Assemble as a whole. Three regenerated templates render it: [policy_validate_template] (Policy.Validate: the
+    conditions, in source order, under which an error is returned), [assemble_prefix] (the statements of Assemble in front
+    of `program := make(...)`: call Validate and return its error, resolve the architecture, run group.assemble for every
+    group in policy order and return the first error, prepare the x32 guard - an unrecognised statement makes the
+    interpretation undefined) and [policy_layout] (how the final program is put together, C04). Their meaning is the
+    model's [compile], for every policy, architecture record, constant record and byte order: the same error in the same
+    order of precedence, the same program. *)
+Theorem C01_source_policy_is_the_model : forall le k ai pol,
+  policy_validate_shape = true /\
+  compile_by_templates le k ai policy_validate_template assemble_prefix policy_layout pol = Some (compile le k ai pol).
+Proof.
+  intros le k ai pol. split; [reflexivity|].
+  change policy_validate_template with expected_policy_validate. change assemble_prefix with expected_assemble_prefix.
+  change policy_layout with expected_layout. apply expected_templates_are_compile.
+Qed.
+Print Assumptions C01_source_policy_is_the_model.
